@@ -139,3 +139,12 @@ func GoodDriver(ss []Stepper2) int {
 	}
 	return t
 }
+
+// FRESH (aliasing fast path)
+func BadFreshAlias(a, b []int) []int {
+	if len(b) == 0 {
+		return a
+	}
+	r := make([]int, 0, len(a))
+	return append(r, a...)
+}
